@@ -15,6 +15,10 @@ RULE = ('cases = (a) all score matrices over {0,1,2} for K <= 3 with both assign
         '(posteriors and quadratic forms permuted together); (d) the integration models built-in spatial/spectral alignment: output is '
         'the Bayes posterior for some per-frequency permutation whose criterion is maximal and >= identity; non-trivial = K >= 2 and '
         'F >= 3 (aligners) / K >= 2 (matrices); distinct by (lane, aligner, metric, mask class, K, F)')
+REACH_REQUIRED = {'greedy assignment loop': ('permutation_alignment.py', r'reverse_permutation\[\(i, \*f\)\] = j'),
+                  'optimal assignment loop': ('permutation_alignment.py', r'for permutation in itertools\.permutations\(range\(K\)\):'),
+                  'built-in spatial/spectral alignment': ('distribution/mixture_model_utils.py', r'for permutation in permutations:'),
+                  'DHTV: bin reassigned': ('permutation_alignment.py', r'mapping\[:, f\] = mapping\[reverse_permutation, f\]')}
 DECIDING = ['C14.perm', 'C14.apply', 'C14.mapping', 'C14.aligned', 'C14.inline', 'C14.builtin']
 MIN_DECIDED = {'quick': 400, 'thorough': 4000}
 CASE_TIMEOUT = {'quick': 120, 'thorough': 1200}
